@@ -167,6 +167,29 @@ func (ex *Exec) harnessPrim(st *State, fn *ssa.Function, args []Value, in *ssa.C
 		st.pc = append(st.pc, Sle(clockFloor(st), t), Slt(t, Const(64, 1<<62)))
 		st.notes = append(st.notes, "clock:"+t.Name)
 		setRes(st, in, t)
+	case "vSha1Eq":
+		a, b := args[0].(SliceV), args[1].(SliceV)
+		out := ex.sha1Of(st, a)
+		c := Eq(b.Len, Const(64, 20))
+		if b.Obj != 0 {
+			ba, _ := ex.sliceArr(st, b)
+			for i := uint64(0); i < 20; i++ {
+				c = And(c, Eq(Select(out, Const(64, i)), Select(ba.A, Add(b.Off, Const(64, i)))))
+			}
+		} else {
+			c = False
+		}
+		setRes(st, in, c)
+	case "vBencode":
+		iv := args[0].(IfaceV)
+		v, ok := ex.load(st, iv.V.(PtrV), pos)
+		if !ok {
+			return false
+		}
+		st.bencNext = v
+		n := ex.freshVar("benc.len", BV(64))
+		st.pc = append(st.pc, Ule(n, Const(64, 1<<20)), Ult(Const(64, 1), n))
+		setRes(st, in, SliceV{ex.newObj(st, ArrV{ex.freshArr("benc"), -1, 8}), Const(64, 0), n, n})
 	case "vFreed", "vLive":
 		s := args[0].(SliceV)
 		freed := s.Obj != 0 && st.heap[s.Obj].Freed
@@ -184,7 +207,7 @@ func (ex *Exec) harnessPrim(st *State, fn *ssa.Function, args []Value, in *ssa.C
 		s := args[0].(SliceV)
 		if s.Obj != 0 {
 			a, _ := ex.sliceArr(st, s)
-			st.heap[s.Obj] = &Obj{Val: ArrV{ACopy(a.A, s.Off, ex.freshArr(name()), Const(64, 0), s.Len), a.N, a.ElW}}
+			st.heap[s.Obj] = &Obj{Val: ArrV{ACopy(a.A, s.Off, ex.freshArr(args[1].(StringV).S), Const(64, 0), s.Len), a.N, a.ElW}}
 		}
 	case "vEffects":
 		setRes(st, in, Const(64, uint64(len(st.effects))))
@@ -595,6 +618,16 @@ func init() {
 		},
 		"github.com/zeebo/bencode.DecodeBytes": func(ex *Exec, st *State, args []Value, in *ssa.Call, pos token.Pos) bool {
 			target := args[1].(IfaceV)
+			if st.bencNext != nil {
+				// the harness registered the decoded value (natively: the real encoding is decoded)
+				v := st.bencNext
+				st.bencNext = nil
+				if !ex.store(st, target.V.(PtrV), v, pos) {
+					return false
+				}
+				setRes(st, in, nilErr)
+				return true
+			}
 			st.stubbed = true
 			pt := target.T.Underlying().(*types.Pointer)
 			// error alternative
@@ -618,10 +651,48 @@ func init() {
 			return true
 		},
 		"crypto/sha1.Sum": func(ex *Exec, st *State, args []Value, in *ssa.Call, pos token.Pos) bool {
-			setRes(st, in, ArrV{ex.freshArr("sha1"), 20, 8})
+			s := args[0].(SliceV)
+			if s.Obj != 0 && st.heap[s.Obj].Freed {
+				ex.finish(st, "panic", "use after free (sha1.Sum of a freed buffer)", pos)
+				return false
+			}
+			setRes(st, in, ArrV{ex.sha1Of(st, s), 20, 8})
 			return true
 		},
 	}
+}
+
+type shaApp struct {
+	A, Off, N *Term
+	Out       *Term
+}
+
+// sha1Of models SHA-1 as an uninterpreted function of the byte string: a fresh 20-byte
+// result per application plus functional consistency with every earlier application on the
+// path (skolemised extensionality: results differ only if lengths differ or some byte differs).
+func (ex *Exec) sha1Of(st *State, s SliceV) *Term {
+	var a *Term = AConst(8, 0)
+	if s.Obj != 0 {
+		av, _ := ex.sliceArr(st, s)
+		a = av.A
+	}
+	for _, p := range st.sha1s {
+		if p.A == a && p.Off == s.Off && p.N == s.Len {
+			return p.Out
+		}
+	}
+	out := ex.freshArr("sha1")
+	for _, p := range st.sha1s {
+		sk := ex.freshVar("sha1.sk", BV(64))
+		outEq := True
+		for i := uint64(0); i < 20; i++ {
+			outEq = And(outEq, Eq(Select(out, Const(64, i)), Select(p.Out, Const(64, i))))
+		}
+		diff := And(Ult(sk, s.Len), Not(Eq(Select(a, Add(s.Off, sk)), Select(p.A, Add(p.Off, sk)))))
+		st.pc = append(st.pc, Or(outEq, Not(Eq(s.Len, p.N)), diff))
+	}
+	st.sha1s = append(st.sha1s, shaApp{a, s.Off, s.Len, out})
+	return out
 }
 
 func (ex *Exec) freshArr(prefix string) *Term {
